@@ -26,11 +26,17 @@ def shard_units(tier, claims, mode=None, tag='', arch=7, sec=True, seed=0, alway
     return us
 
 
+# system state that gates coprocessor / privileged-operation paths: symbolic in every sweep
+SYS_SYM = {'scr': 0x1, 'nsacr': 0x3FFF, 'cpacr': 0x0FFFFFFF}    # SCR.NS, NSACR.cp0-13, CPACR.cp0-13
+SCTLR_SYM = dict(SYS_SYM, sctlr=0x42002002)                     # + SCTLR.{A, V, EE, TE}
+
+
 def units(tier, seed=0):
-    us = shard_units(tier, CLAIMS, seed=seed)
+    us = shard_units(tier, CLAIMS, seed=seed, sym_sys=SYS_SYM)
     if tier == 'thorough':
-        us += shard_units('quick', CLAIMS, tag='/v6', arch=6, seed=seed)
-        us += shard_units('quick', CLAIMS, tag='/nosec', sec=False, seed=seed)
+        us += shard_units('quick', CLAIMS, tag='/v6', arch=6, seed=seed, sym_sys={'cpacr': 0x0FFFFFFF})
+        us += shard_units('quick', CLAIMS, tag='/nosec', sec=False, seed=seed, sym_sys={'cpacr': 0x0FFFFFFF})
+        us += shard_units('quick', CLAIMS, tag='/sctlr', seed=seed + 1, sym_sys=SCTLR_SYM)
     return us
 
 
@@ -46,7 +52,9 @@ META = {
                'range/alignment invariants re-established after every step)', 'register lists of LDM/STM are windowed: '
                '4 list bits symbolic (r0-r3 or r12-r15 incl. SP/LR/PC/base-in-list; Thumb-16: r0-r3 or r4-r7), the others zero',
                'quick: 24 ARM + 24 Thumb-16 + 24 Thumb-32 shards spread over the space (offset rotated by VERIF_SEED); thorough: all shards '
-               '(+ arch 6 and no-security samples)', 'MPU off'],
+               '(+ arch 6, no-security and SCTLR.{A,V,EE,TE}-symbolic samples)', 'MPU off',
+               'SCR.NS, NSACR.cp0-13 and CPACR.cp0-13 symbolic (secure and non-secure state, every coprocessor access '
+               'setting); other system registers at their reset values'],
     'outside': ['MPU/MMU enabled stepping (translation totality is exercised by C14/C15)',
                 'register lists with both bytes simultaneously symbolic'],
     'stubs': stubs.STUBS_DOC,
